@@ -1,7 +1,7 @@
 """C01 - literal text and the documented escapes are reproduced exactly; lexing accounts for all
 source or raises; lexing time is polynomial.
 
-(a) exhaustive token strings (k<=4 quick / k<=5 thorough over a 27-token alphabet): lexer terminates with
+(a) exhaustive token strings (k<=4 quick / k<=5 thorough over a 28-token alphabet): lexer terminates with
     tree or Syntax/CompileException; tree passes the accounting round trip (vf.gen.account); text-only trees
     render to the concatenation of their Text contents.
 (b) hypothesis documents built from (source, expected output) segments: render == expected by construction.
@@ -21,7 +21,7 @@ from vf.gen import account
 PID = "C01"
 LEVEL = "exploration"
 RULE = (
-    "(a) every concatenation of <=k tokens (k=4 quick, 5 thorough) from the 27-token alphabet "
+    "(a) every concatenation of <=k tokens (k=4 quick, 5 thorough) from the 28-token alphabet "
     "<% %> </% ${ } % %% ## \\ LF CRLF CR \" ' | > / < $ # { <%text> </%text> <%doc> </%doc> SP a, each also as "
     "'x'+s+LF in thorough; non-trivial = contains a directive-opening token and is distinct as a string (the sweep "
     "enumerates each token tuple once; distinct strings counted via fingerprints of a 1/16 sample x16 is NOT used: "
@@ -40,7 +40,7 @@ ASSUMPTIONS = [
 ]
 
 TOKENS = ["<%", "%>", "</%", "${", "}", "%", "%%", "##", "\\", "\n", "\r\n", "\r", '"', "'", "|", ">", "/", "<",
-          "$", "#", "{", "<%text>", "</%text>", "<%doc>", "</%doc>", " ", "a"]
+          "$", "#", "{", "<%text>", "</%text>", "<%doc>", "</%doc>", " ", "a", "# coding:x\n"]
 OPENERS = {"<%", "</%", "${", "%", "%%", "##", "\\", "<%text>", "<%doc>", "</%text>", "</%doc>"}
 
 
@@ -225,8 +225,8 @@ class Doc:
                 out.append(SEP)
             elif ch == "%" and (cur.endswith("<") or cur.endswith("</") or full_lead):
                 out.append(SEP)
-            elif ch == "#" and full_lead:
-                out.append(SEP)
+            elif ch == "#" and cur.endswith("#") and self._lead_before_last("".join(out)):
+                out.append(SEP)  # a line-leading "##" would be a comment line; a single "#" is plain text
             elif ch in "\r\n" and cur.endswith("\\"):
                 out.append(SEP)
             out.append(ch)
@@ -236,6 +236,14 @@ class Doc:
         if s2:
             self._emit(s2, s2)
             self.kinds.add("text")
+
+    def _lead_before_last(self, out_so_far):
+        """is the last character written so far (a '#') preceded only by blanks since the line start?"""
+        whole = (self.source() + out_so_far)[:-1]
+        i = len(whole)
+        while i > 0 and whole[i - 1].isspace() and whole[i - 1] != "\n":
+            i -= 1
+        return i == 0 or whole[i - 1] == "\n"
 
     def raw(self, src, exp, kind, line_start=False):
         if line_start and not self.at_line_start():
@@ -274,6 +282,7 @@ def doc_strategy():
         st.tuples(st.just("comment"), ws, ws, linetext, st.sampled_from(["\n", "\r\n", ""])),
         st.tuples(st.just("doc"), bodytext),
         st.tuples(st.just("texttag"), bodytext),
+        st.tuples(st.just("codingline"), st.sampled_from(["# coding: utf-8", "# -*- coding: latin-1 -*-", "#coding=ascii", "# decoding=fast x"]), nl),
         st.tuples(st.just("stray"), st.sampled_from(["%", "#", "##", "$", "<", "\\", "$ {", "< %", "%>", "}", "|", "</", "<\\", "$$",
                                                       "\\\\", "\\n", "%%", "<!", "</ %", "{", "#%", "\\ "])),
         st.tuples(st.just("expr"), st.sampled_from(["'lit'", '"q|}"', "'a' + 'b'", "('x',)[0]", "'\u00e9'", "{'k': 'v}'}['k']"])),
@@ -317,6 +326,11 @@ def build_doc(segs):
         elif kind == "texttag":
             body = sg[1].replace("</%text>", "</%t3xt>")
             d.raw("<%text>" + body + "</%text>", body, "texttag")
+        elif kind == "codingline":
+            # a "# ...coding: x" line is only special as the FIRST line of the template; anywhere else it is plain text
+            if not d.src:
+                d.raw("first\n", "first\n", "text")
+            d.raw(sg[1] + sg[2], sg[1] + sg[2], "codingline", line_start=True)
         elif kind == "stray":
             s = sg[1]
             if s[0] in "%#" and d.line_lead():
